@@ -473,6 +473,14 @@ class Normalizer:
             return P_atom(A("store", wrap(self.nf(base)), fi, wrap(self.nf(val))))
         if op == "unk":
             return P_atom(A("unk", a[0], a[1]))
+        if op in ("floor", "ceil") and len(a) == 1:
+            # floor(x + 1/2) and ceil(x - 1/2) are the nearest-integer map (up to ties)
+            p = self.nf(a[0])
+            half = Fraction(1, 2) if op == "floor" else Fraction(-1, 2)
+            d = dict(p)
+            if d.get((EMPTY_S, ()), 0) == half:
+                del d[(EMPTY_S, ())]
+                return P_atom(A("round", wrap(_mk(d))))
         if op in ("min", "max"):
             kids = []
             for x in a:
